@@ -43,7 +43,7 @@ struct Mutex;
 struct Core {
 	uint8_t *base = nullptr;       // 4 GiB aligned
 	size_t cap = 0;                // usable bytes
-	size_t cur = 0;                // bump offset
+	size_t hi_seen = 0;            // highest bump offset handed out by any policy object (diagnostics only)
 	size_t poisoned_hi = 0;        // [0, poisoned_hi) has been ASan-poisoned for this case, except the holes
 	std::vector<std::pair<size_t, size_t>> holes;   // huge regions of non-poisoning policies: never (un)poisoned in ASan
 	static constexpr size_t HUGE = (size_t)1 << 30;
@@ -93,7 +93,7 @@ struct Core {
 			madvise(base, dirty_hi, MADV_DONTNEED);
 		}
 		holes.clear();
-		cur = ARENA_UNIT * 16; poisoned_hi = 0; dirty_hi = 0;
+		hi_seen = 0; poisoned_hi = 0; dirty_hi = 0;
 		recycled.clear(); recycle = false; ci = c;
 		fail_next = false; skip_units = 0; quiet = false;
 		regions.clear(); shadow.clear(); held = 0;
@@ -170,7 +170,7 @@ struct Core {
 	}
 
 	// ---- the policy entry points
-	uintptr_t do_map(size_t len, size_t al) {
+	uintptr_t do_map(size_t &cur, size_t len, size_t al) {      // cur: the bump cursor of the calling policy object
 		flush_run(); op_cbs++; op_maps++;
 		if(held) vh::oracle("lock-at-callback", "map() called with %d pool lock(s) held", held);
 		if(fail_next) {
@@ -194,7 +194,12 @@ struct Core {
 		if(huge && !reused) { ensure_with_hole(off, len); ensure(cur); } else ensure(std::max(cur, off + len));
 		uintptr_t r = (uintptr_t)base + off;
 		for(auto &rg : regions)
-			if(!(r + len <= rg.first || rg.first + rg.second <= r)) { fprintf(stderr, "arena policy bug: overlapping map\n"); exit(3); }
+			if(!(r + len <= rg.first || rg.first + rg.second <= r)) {
+				// cannot happen with ONE policy object whose cursor only grows: the pool works on a copy of the policy
+				flush_run(); printf("map %zu %zu %llu\n", len, al, (ull)v(r));
+				vh::oracle("policy-identity", "map() answered [%llu,+%zu) which overlaps an outstanding region: the pool does not use the caller's policy object", (ull)v(r), len);
+				throw FatalOracle{};
+			}
 		regions[r] = len;
 		if(!ci->poison && !huge) VH_UNPOISON((void *)r, len);   // a policy without poison hooks hands out plain memory
 		op_map_r = r; op_map_len = len;
@@ -261,18 +266,23 @@ struct Mutex {
 	}
 };
 
-struct MapAligned {
-	uintptr_t map(size_t len, size_t al) { return g.do_map(len, al); }
-	void unmap(uintptr_t b, size_t len) { g.do_unmap(b, len); }
+// The state of the policy (bump cursor, call counter) is IN the policy object the harness owns and passes by reference.
+struct PolicyState {
+	size_t cur = ARENA_UNIT * 16;     // bump offset
+	uint64_t calls = 0;               // calls received by THIS object
 };
-struct MapPlain {
-	uintptr_t map(size_t len) { return g.do_map(len, 0); }
-	void unmap(uintptr_t b, size_t len) { g.do_unmap(b, len); }
+struct MapAligned : virtual PolicyState {
+	uintptr_t map(size_t len, size_t al) { calls++; return g.do_map(cur, len, al); }
+	void unmap(uintptr_t b, size_t len) { calls++; g.do_unmap(b, len); }
 };
-struct Poisoning {
-	void poison(void *p, size_t n) { g.do_poison(p, n); }
-	void unpoison(void *p, size_t n) { g.do_unpoison(p, n); }
-	void unpoison_expand(void *p, size_t n) { g.do_unpoison_expand(p, n); }
+struct MapPlain : virtual PolicyState {
+	uintptr_t map(size_t len) { calls++; return g.do_map(cur, len, 0); }
+	void unmap(uintptr_t b, size_t len) { calls++; g.do_unmap(b, len); }
+};
+struct Poisoning : virtual PolicyState {
+	void poison(void *p, size_t n) { calls++; g.do_poison(p, n); }
+	void unpoison(void *p, size_t n) { calls++; g.do_unpoison(p, n); }
+	void unpoison_expand(void *p, size_t n) { calls++; g.do_unpoison_expand(p, n); }
 };
 struct NoPoisoning { };
 struct NoConsts { };
@@ -282,6 +292,14 @@ struct Consts {
 	static constexpr size_t sb_size = SBS;
 	static constexpr size_t slabsize = SLB;
 	static constexpr int num_buckets = NB;
+};
+// the same constants with a narrower DECLARED type (the pool must not inherit that type for its masks)
+template<class T, T PG, T SBS, T SLB, T NB>
+struct ConstsT {
+	static constexpr T pagesize = PG;
+	static constexpr T sb_size = SBS;
+	static constexpr T slabsize = SLB;
+	static constexpr T num_buckets = NB;
 };
 template<class M, class P, class C> struct Policy : M, P, C { };
 
@@ -300,7 +318,10 @@ template<class M, class P, class C> struct Policy : M, P, C { };
 	X(p4k_s64k_b4_an,   Policy<MapAligned, NoPoisoning, Consts<0x1000, 0x10000, 0x10000, 4>>) \
 	X(p4k_s256k_b4_up,  Policy<MapPlain,   Poisoning,   Consts<0x1000, 0x40000, 0x40000, 4>>) \
 	X(p64k_s64k_b12_ap, Policy<MapAligned, Poisoning,   Consts<0x10000, 0x10000, 0x10000, 12>>) \
-	X(p64k_s64k_b12_un, Policy<MapPlain,   NoPoisoning, Consts<0x10000, 0x10000, 0x10000, 12>>)
+	X(p64k_s64k_b12_un, Policy<MapPlain,   NoPoisoning, Consts<0x10000, 0x10000, 0x10000, 12>>) \
+	X(u32_p4k_s64k_b10_ap, Policy<MapAligned, Poisoning, ConstsT<uint32_t, 0x1000, 0x10000, 0x10000, 10>>) \
+	X(int_p4k_s112k_b13_up, Policy<MapPlain,  Poisoning, ConstsT<int, 0x1000, 0x20000, 0x1C000, 13>>) \
+	X(u32_p64k_s64k_b12_un, Policy<MapPlain,  NoPoisoning, ConstsT<unsigned, 0x10000, 0x10000, 0x10000, 12>>)
 
 template<class Pol> CfgInfo make_info(const char *name) {
 	using Pool = frg::slab_pool<Pol, Mutex>;
@@ -320,7 +341,7 @@ static inline uint8_t pat(uint64_t tag, uint64_t j) { return (uint8_t)((tag + j 
 struct Blk {
 	size_t n;            // requested
 	size_t size0;        // get_size when it became live
-	bool small; int cls;
+	bool small; int cls; int pool_id = 0;
 	uint64_t seq;
 	std::vector<uint8_t> data; std::vector<uint8_t> det;    // expected contents of the requested bytes
 };
@@ -331,17 +352,38 @@ struct Runner {
 	using frame = typename Pool::frame;
 	using slab_frame = typename Pool::slab_frame;
 	const CfgInfo &ci;
-	Pol pol;
-	Pool pool;
-	std::map<uintptr_t, Blk> live;
+	Pol pol;                                       // ONE policy object, owned by the harness, referenced by both pools
+	struct Ctx {                                   // one pool and what the oracle knows about it
+		Pool pool_;
+		std::vector<uintptr_t> slab_frames_;            // creation order
+		std::vector<uint64_t> slab_maps_, live_small_, peak_small_;   // per class
+		std::map<uintptr_t, size_t> region_pages_;      // outstanding region base -> pages it accounts for
+		Ctx(Pol &p, int nb) : pool_(p), slab_maps_(nb, 0), live_small_(nb, 0), peak_small_(nb, 0) { }
+	};
+	Ctx cx0, cx1;
+	Ctx *cx = &cx0;
+	int cxi = 0;
+#define pool (cx->pool_)
+#define slab_frames (cx->slab_frames_)
+#define slab_maps (cx->slab_maps_)
+#define live_small (cx->live_small_)
+#define peak_small (cx->peak_small_)
+#define region_pages (cx->region_pages_)
+	std::map<uintptr_t, Blk> live;                 // blocks of BOTH pools (they must be pairwise disjoint)
 	std::vector<void *> slots;
-	std::vector<uintptr_t> slab_frames;            // creation order
-	std::vector<uint64_t> slab_maps, live_small, peak_small;   // per class
-	std::map<uintptr_t, size_t> region_pages;      // outstanding region base -> pages it accounts for
 	uint64_t seq = 0;
 	size_t opno = 0;
+	uint64_t calls_before = 0;
 
-	Runner(const CfgInfo &c) : ci(c), pool(pol), slab_maps(c.nb, 0), live_small(c.nb, 0), peak_small(c.nb, 0) {
+	// the calls the pool made during this op must have arrived at the harness's own policy object
+	void begin_identity() { calls_before = pol.calls; }
+	void check_identity(const char *what) {
+		if(pol.calls - calls_before != (uint64_t)g.op_cbs)
+			vh::oracle("policy-identity", "%s: the pool made %d policy call(s) but the caller's policy object received %llu",
+				what, g.op_cbs, (ull)(pol.calls - calls_before));
+	}
+
+	Runner(const CfgInfo &c) : ci(c), cx0(pol, c.nb), cx1(pol, c.nb) {
 		g.live_intersects = [this](uintptr_t b, size_t len, uintptr_t except) {
 			auto it = live.lower_bound(b);
 			if(it != live.begin()) { auto pr = std::prev(it); if(pr->first != except && pr->first + pr->second.size0 > b) return true; }
@@ -444,8 +486,9 @@ struct Runner {
 			vh::oracle("pages", "numUsedPages() = %zu but the outstanding regions account for %zu", pool.numUsedPages(), want);
 		bool any_large = false;
 		for(auto &kv : live) if(!kv.second.small) { any_large = true; break; }
-		if(!any_large && g.regions.size() != slab_frames.size())
-			vh::oracle("unmap", "no large block is live but %zu regions are mapped for %zu slabs", g.regions.size(), slab_frames.size());
+		size_t all_slabs = cx0.slab_frames_.size() + cx1.slab_frames_.size();
+		if(!any_large && g.regions.size() != all_slabs)
+			vh::oracle("unmap", "no large block is live but %zu regions are mapped for %zu slabs", g.regions.size(), all_slabs);
 	}
 
 	// ---- full structural walk (verify points and end of case)
@@ -490,7 +533,7 @@ struct Runner {
 		}
 		if(dump) {
 			std::vector<std::pair<uint64_t, uintptr_t>> lg;
-			for(auto &kv : live) if(!kv.second.small) lg.push_back({kv.second.seq, kv.first});
+			for(auto &kv : live) if(!kv.second.small && kv.second.pool_id == cxi) lg.push_back({kv.second.seq, kv.first});
 			std::sort(lg.begin(), lg.end());
 			for(auto &x : lg) {
 				auto fr = reinterpret_cast<frame *>((x.second - 1) & ~(uintptr_t)(ci.sb - 1));
@@ -503,7 +546,7 @@ struct Runner {
 	// ---- registering the outcome of a successful allocate / moving realloc
 	void born(uintptr_t p, size_t n, bool mapped_now) {
 		size_t n1 = n ? n : 1;
-		Blk b; b.n = n; b.seq = ++seq;
+		Blk b; b.n = n; b.seq = ++seq; b.pool_id = cxi;
 		b.small = n1 <= max_small();
 		b.size0 = pool.get_size((void *)p);
 		b.cls = b.small ? cls_of_size(b.size0) : -1;
@@ -572,7 +615,9 @@ struct Runner {
 	void op_alloc(size_t sl, size_t n, const std::string &env) {
 		set_env(env); g.begin_op();
 		uint64_t fp = fingerprint(); size_t ub = pool.numUsedPages();
+		begin_identity();
 		void *p = pool.allocate(n);
+		check_identity("allocate");
 		check_locks(g.op_failed_maps ? "allocate (map failed)" : "allocate");
 		result_ptr(p);
 		if(g.op_failed_maps) after_failed_map("allocate", p, fp, ub);
@@ -608,7 +653,9 @@ struct Runner {
 		void *p = slot(sl);
 		g.begin_op(); g.fail_next = false; g.cur_free_p = (uintptr_t)p;
 		uint64_t fp = p ? 0 : fingerprint();
+		begin_identity();
 		if(sized) pool.deallocate(p, n); else pool.free(p);
+		check_identity("free");
 		check_locks("free");
 		g.flush_run();
 		printf("= unit used=%zu\n", pool.numUsedPages());
@@ -625,7 +672,9 @@ struct Runner {
 		uint64_t fp = fingerprint(); size_t ub = pool.numUsedPages();
 		Blk old; bool had = false;
 		if(p) { auto it = live.find((uintptr_t)p); if(it != live.end()) { old = it->second; had = true; } }
+		begin_identity();
 		void *q = pool.realloc(p, n);
+		check_identity("realloc");
 		check_locks(g.op_failed_maps ? "realloc (map failed)" : "realloc");
 		result_ptr(q);
 		g.cur_free_p = 0;
@@ -718,6 +767,7 @@ struct Runner {
 				}
 			} else if(o == "v") verify(true);
 			else if(o == "recycle") g.recycle = true;
+			else if(o == "pool" && t.size() >= 2) { cxi = vh::u64(t[1]) ? 1 : 0; cx = cxi ? &cx1 : &cx0; continue; }
 			else if(o == "sc") sizeclasses();
 			else continue;
 			if(o != "v" && o != "sc" && o != "recycle") { sweep(false); check_pages(); }
@@ -742,6 +792,13 @@ struct Runner {
 		}
 	}
 };
+
+#undef pool
+#undef slab_frames
+#undef slab_maps
+#undef live_small
+#undef peak_small
+#undef region_pages
 
 template<class Pol> void run_cfg(const CfgInfo &ci, const vh::Lines &ls) {
 	g.reset(&ci);
